@@ -94,13 +94,13 @@ type Ctx struct {
 	Shard   int
 	NShards int
 
-	only    int64 // -1: all
-	onlySet map[int64]bool
+	only     int64 // -1: all
+	onlySet  map[int64]bool
 	doCount  int64
 	lastMark time.Time
-	start   int64
-	journal bool
-	idx     int64
+	start    int64
+	journal  bool
+	idx      int64
 
 	evals, ops, nontrivial, distinctByConstruction int64
 	hashes                                         map[uint64]struct{}
